@@ -4,9 +4,35 @@ PROPERTIES = {
     "C16": dict(
         modules=["regions"],
         level="proof",
-        claim="set semantics of region operations relative to shapely/numpy/trimesh library contracts",
-        note="planar geometry abstract (membership predicate + exact set operations); see evidence.trusted_base",
-        assumptions=[],
-        not_reached=[],
+        claim=(
+            "every region denotes a point set mem3(R, p) over R^3 (planar regions at their height z); "
+            "PolygonalRegion / PolygonalFootprintRegion / PolylineRegion intersect-union-difference (incl. regionFromShapelyObject, inlined) "
+            "return a region whose set is the set operation of the operands' sets and that keeps the height; the double dispatch of "
+            "Region.intersect/union/intersects/difference reverses at most once (triedReversed=True) and then falls back to the generic "
+            "Intersection/Union/DifferenceRegion; AllRegion/EmptyRegion laws; Boolean combination in the composed regions' containsPoint/"
+            "containsObject; distanceTo = 0 exactly on members, else the Euclidean distance to the nearest member (Polygonal, Circular, "
+            "Polyline, Footprint, PointSet); MeshRegion.projectVector returns the nearest hit along +-direction; intersects <=> a shared "
+            "point (with heights); containsRegionInner totality and soundness; every member inside the reported AABB; findMinMax"
+        ),
+        note=(
+            "proved relative to the shapely / numpy / trimesh / KD-tree library contracts of pyvc/models_shapely.py (exact planar set "
+            "operations on abstract point sets, facts instantiated at the finitely many points of a path); probe points are clear of the "
+            "operands' boundaries (G-lowdim); adding/removing a 1-dimensional set to/from a polygon is checked off the line only; "
+            "discs are identified with their polygons; an unknown operand class obeys this same contract (assume-guarantee over the dispatch)"
+        ),
+        assumptions=[
+            "library regions other than `nowhere` are non-empty (class invariant of the constructors)",
+            "operations of an operand of unknown class satisfy this property's contract (assume-guarantee; every override in regions.py that is reached is itself under contract)",
+            "measure monotonicity: a contained region has no larger dimension and, at equal dimension, no larger size",
+            "viewAngleToPoint is abstract (atan2 not expanded): SectorRegion.containsPoint is verified relative to it",
+        ],
+        not_reached=[
+            "MeshVolumeRegion/MeshSurfaceRegion.intersect/union/difference bodies (trimesh boolean operations and slicing)",
+            "MeshVolumeRegion/MeshSurfaceRegion.containsPoint/distanceTo (trimesh proximity queries), PathRegion.distanceTo, VoxelRegion",
+            "PolygonalRegion.unionAll, PolylineRegion.unionAll/__add__, buffer/approxBoundFootprint/boundFootprint",
+            "projectVector default direction of MeshSurfaceRegion (area-weighted face normal)",
+            "lazily constructed operands (isLazy arms fall back to the generic regions; only the non-lazy arms are verified)",
+        ],
+        bounded=["findMinMax: 1..4 values", "PointSetRegion.AABB: 1..3 points"],
     )
 }
